@@ -264,6 +264,17 @@ class Rewriter:
             if toks[i].kind == L.IDENT and toks[i].text == "f64":
                 j = L.skip_trivia(toks, i + 1, n)
                 k = L.skip_trivia(toks, j + 1, n) if j < n else n
+                if j < n and toks[j].text == "::" and k < n and toks[k].text == "consts":
+                    k2 = L.skip_trivia(toks, k + 1, n)
+                    k3 = L.skip_trivia(toks, k2 + 1, n) if k2 < n else n
+                    if k2 < n and toks[k2].text == "::" and k3 < n and toks[k3].text in ("SQRT_2",):
+                        # `core::f64::consts::SQRT_2` (a leading `core::` / `std::` is dropped by R7 before this rule sees it)
+                        while out and (L.is_trivia(out[-1]) or out[-1].text in ("::", "core", "std")):
+                            out.pop()
+                        out.append(L.Tok(L.IDENT, "%s_const()" % toks[k3].text, toks[i].line))
+                        self.bump("R8")
+                        i = k3 + 1
+                        continue
                 assoc = {"NAN": "R::nan()", "EPSILON": "R::epsilon()", "INFINITY": "R::infinity()", "NEG_INFINITY": "R::neg_infinity()"}
                 if j < n and toks[j].text == "::" and k < n and toks[k].text in assoc:
                     out.append(L.Tok(L.IDENT, assoc[toks[k].text], toks[i].line))
@@ -331,7 +342,7 @@ class Rewriter:
                     self.bump("R6")
                     i += 1
                     continue
-                if t.text in ("utils", "mean", "error", "stats", "interval", "proportion", "crate") :
+                if t.text in ("utils", "mean", "error", "stats", "interval", "proportion", "crate", "statrs", "function", "erf", "distribution") and not (len(out) and out[-1].text == "."):
                     # R7: module path prefixes are flattened (the unit is one module)
                     j = L.skip_trivia(toks, i + 1, n)
                     if j < n and toks[j].text == "::":
